@@ -1,11 +1,12 @@
 (* C02 - what the user types is what Readline returns.
    Property theorems only; proofs are in Proofs/Utf8P.v (every Unicode scalar value,
    by a finite sweep), Proofs/TypedP.v (table check, editor, abstract machine) and
-   Proofs/LoopP.v (the key loop is that machine for every cutting into reads). *)
+   Proofs/LoopP.v and Proofs/LoopViP.v (the key loop - Emacs, and Vi on input without ESC -
+   is that machine for every cutting into reads). *)
 From Coq Require Import String.
 From Model Require Import Base Uni Utf8 Notation HistFile Dispatch Editor.
 From Gen Require Import Binds.
-From Proofs Require Import DispatchP LoopP Utf8P TypedP.
+From Proofs Require Import DispatchP LoopP LoopViP Utf8P TypedP.
 Open Scope Z_scope.
 
 (* the effective main keymaps of a fresh shell, regenerated from the live code on every
@@ -20,6 +21,10 @@ Proof. vm_compute. reflexivity. Qed.
 Lemma emacs_no_macros_b : forallb (fun e => negb (snd (snd e))) (table_of "emacs") = true.
 Proof. vm_compute. reflexivity. Qed.
 Lemma emacs_nonempty : table_of "emacs" <> [].
+Proof. vm_compute. discriminate. Qed.
+Lemma vi_insert_no_macros_b : forallb (fun e => negb (snd (snd e))) (table_of "vi-insert") = true.
+Proof. vm_compute. reflexivity. Qed.
+Lemma vi_insert_nonempty : table_of "vi-insert" <> [].
 Proof. vm_compute. discriminate. Qed.
 
 (* the text of the property: printable ASCII and every Unicode scalar value from U+00A0
@@ -42,10 +47,10 @@ Proof.
   assert (NM : forall e, In e (table_of "emacs") -> snd (snd e) = false).
   { intros e Hin. pose proof emacs_no_macros_b as B. rewrite forallb_forall in B. specialize (B e Hin).
     destruct e as [k [a m]]. cbn in *. destruct m; [discriminate B | reflexivity]. }
-  destruct (loop_is_machine (res ed) (ed_exec mkind mx) (table_of "emacs") emacs_nonempty NM (weight cs)) as [_ H].
-  change (init_state (res ed) false (Ok (ed_init false h))) with (mk (res ed) no_bind no_bind [] [] false (Ok (ed_init false h))).
+  destruct (LoopP.loop_is_machine (res ed) (ed_exec mkind mx) (table_of "emacs") emacs_nonempty NM (weight cs)) as [_ H].
+  change (init_state (res ed) false (Ok (ed_init false h))) with (LoopP.mk (res ed) no_bind no_bind [] [] false (Ok (ed_init false h))).
   rewrite (H (S (weight cs)) (S (length (concat cs))) no_bind no_bind [] [] false (Ok (ed_init false h)) cs);
-    auto; try (cbn; lia); [|apply stable_nil].
+    auto; try (cbn; lia); [|apply LoopP.stable_nil].
   rewrite achunks_concat by lia. rewrite Hcat.
   destruct (afeed_typed (table_of "emacs") emacs_table_ok mkind mx s [] (ed_init false h)
                         (S (length (utf8_encode s ++ [13]))) Hs (typing_init false h)) as (e & E & L & AL & AE & _).
@@ -53,21 +58,31 @@ Proof.
   exists e. rewrite E. cbn [aobs]. repeat split; assumption.
 Qed.
 
-(* Vi insert mode: the same on the abstract machine over the default vi-insert keymap
-   of the live code (one pass over the bytes typed).  That the vi key loop is this
-   machine is proved for the emacs loop only (the vi loop differs in how a lone ESC is
-   timed, and typed text contains no ESC); the vi loop itself is compared with the
-   implementation by the correspondence run. *)
-Theorem C02_vi_insert_machine_returns_the_typed_text : forall s mk mx h f,
-  typed_text s -> (length s < f)%nat ->
-  exists e, afeed (res ed) (ed_exec mk mx) (table_of "vi-insert") f no_bind [] (Ok (ed_init true h)) (utf8_encode s ++ [13])
-            = ARet _ (Ok e) /\
+(* Vi insert mode, the whole model of a Readline call over the default vi-insert keymap of
+   the live code: the same statement.  The Vi key loop differs from the Emacs one only in
+   how a lone ESC is handled; typed text contains no ESC byte (proved), and for input
+   without ESC the Vi loop is the same abstract machine (Proofs/LoopViP.v, Proofs/DecodeP.v). *)
+Theorem C02_vi_insert_returns_the_typed_text : forall s cs mkind mx h,
+  typed_text s -> Forall (fun c => c <> []) cs -> concat cs = utf8_encode s ++ [13] ->
+  exists e, obs (res ed) (loop (res ed) (ed_exec mkind mx) (S (weight cs)) false (table_of "vi-insert")
+                              (init_state (res ed) true (Ok (ed_init true h))) (map Chunk cs))
+            = Some (true, Ok e, []) /\
             line e = s /\ accept_line e = s /\ accept_err e = 0.
 Proof.
-  intros s mk mx h f Hs Hf.
-  destruct (afeed_typed (table_of "vi-insert") vi_insert_table_ok mk mx s [] (ed_init true h) f Hs (typing_init true h) Hf)
-    as (e & E & L & AL & AE & _).
-  exists e. repeat split; assumption.
+  intros s cs mkind mx h Hs Hcs Hcat.
+  assert (NM : forall e, In e (table_of "vi-insert") -> snd (snd e) = false).
+  { intros e Hin. pose proof vi_insert_no_macros_b as B. rewrite forallb_forall in B. specialize (B e Hin).
+    destruct e as [k [a m]]. cbn in *. destruct m; [discriminate B | reflexivity]. }
+  assert (NE : Forall (noesc) cs) by (apply concat_no_esc; rewrite Hcat; apply typed_no_esc; exact Hs).
+  destruct (LoopViP.loop_is_machine (res ed) (ed_exec mkind mx) (table_of "vi-insert") true vi_insert_nonempty NM (weight cs)) as [_ H].
+  change (init_state (res ed) true (Ok (ed_init true h))) with (LoopViP.mk (res ed) true no_bind no_bind [] [] false (Ok (ed_init true h))).
+  rewrite (H (S (weight cs)) (S (length (concat cs))) no_bind no_bind [] [] false (Ok (ed_init true h)) cs);
+    auto; try (cbn; lia); [| apply LoopViP.stable_nil | intros X; exact X].
+  rewrite achunks_concat by lia. rewrite Hcat.
+  destruct (afeed_typed (table_of "vi-insert") vi_insert_table_ok mkind mx s [] (ed_init true h)
+                        (S (length (utf8_encode s ++ [13]))) Hs (typing_init true h)) as (e & E & L & AL & AE & _).
+  { rewrite app_length. pose proof (utf8_encode_length s). cbn. lia. }
+  exists e. rewrite E. cbn [aobs]. repeat split; assumption.
 Qed.
 
 (* every Unicode scalar value above 0x7f: its UTF-8 encoding is complete only at its
